@@ -134,7 +134,7 @@ fn analyse(case: &ProgCase, challenges: &[Vec<Q>]) -> Outcome12 {
             }
         }
         let expect: [(Option<Q>, Option<Q>); 7] =
-            [(Some(one), Some(one)), (Some(p2_init), Some(one)), (Some(one), Some(one)), (None, None), (None, None), (Some(one), Some(vt_final)), (Some(one), Some(one))];
+            [(Some(one), Some(one)), (Some(p2_init), Some(one)), (Some(one), Some(one)), (None, None), (Some(one), Some(one)), (Some(one), Some(vt_final)), (Some(one), Some(one))];
         for (c, (f, l)) in expect.iter().enumerate() {
             if let Some(f) = f {
                 if aux.get(c, 0) != *f {
